@@ -242,6 +242,33 @@ def cli_check(st, pat):
                 if not same:
                     st.violation(f"C15:test-pep440-line:{shape}", dict(case, cli="test"), {"shown": shown, "expected": str(pv.Version(v))})
                     st.outcomes["violation"] += 1
+            # `show` when the current version comes from a VCS tag that is ahead of the config: both lines must describe the TAG
+            if o.exit == 0 and bg_is_pep440(v):
+                from .. import fakevcs
+
+                world.clear_dir(".")
+                world.write_tree({"bumpver.toml": CFG.format(v=ov, p=pat.text).encode(), "a.txt": f"ver={ov};\npep={ow};\n".encode()})
+                os.mkdir(".git")
+                fakevcs.install(fakevcs.FakeVCS("git", tags_all=[ov, v], tags_merged=[ov, v], status=[]))
+                try:
+                    o3 = world.cli("show", "--no-fetch")
+                finally:
+                    fakevcs.uninstall()
+                st.evaluations += 1
+                lines = dict((l.split(":", 1)[0].strip(), l.split(":", 1)[1].strip()) for l in o3.stdout.splitlines() if ":" in l)
+                st.observe((pat.text, ov, v, "show-from-tag", o3.exit, sorted(lines.items())))
+                cur, pep = lines.get("Current Version"), lines.get("PEP440")
+                try:
+                    ok3 = o3.exit == 0 and cur == v and pv.Version(pep) == pv.Version(v) and pep == str(pv.Version(v))
+                except (pv.InvalidVersion, TypeError):
+                    ok3 = False
+                if not ok3:
+                    st.outcomes["violation"] += 1
+                    st.violation(f"C15:show-pep440-line-when-version-comes-from-a-tag:{shape}", dict(case, cli="show", tag=v, config=ov),
+                                 {"stdout": o3.stdout, "expected_pep440": str(pv.Version(v))})
+                else:
+                    st.validated += 1
+                    st.outcomes["cli-show-from-tag-ok"] += 1
         prev = (v, w)
     # the increment path: `update` with flags (incl. --tag-num on patterns without NUM), files must again agree
     for state in states[:4]:
